@@ -242,7 +242,7 @@ def _draw_conv(draw, dag, src, kind, force_same=False, geom=None, cls=None,
   shp = _conv_shape((h, w, c), cls, g)
   if kind == "unfold":
     p = layer_params(draw, cls, c, g)
-    p["center"] = draw(st.integers(0, 11)) != 11
+    p["center"] = draw(st.integers(0, 3)) != 3
     node = {"name": dag.name("f"), "op": "f" + cls, "inputs": [src],
             "geom": g, "act": draw(st.sampled_from([None, None, "relu"]))}
     node.update(p)
